@@ -13,6 +13,7 @@ import (
 
 const rtImport = "github.com/oasisprotocol/ed25519/zzsimrt"
 const shimImport = "github.com/oasisprotocol/ed25519/zzsimrt/zzsync"
+const timeImport = "github.com/oasisprotocol/ed25519/zzsimrt/zztime"
 
 type unsupportedErr struct{ msg string }
 
@@ -286,6 +287,16 @@ func instrumentFile(fset *token.FileSet, af *ast.File, src []byte, pkgVars map[s
 		points++
 	}
 
+	timeName := ""
+	usesZZTime := false
+	for _, im := range af.Imports {
+		if im.Path.Value == `"time"` {
+			timeName = "time"
+			if im.Name != nil {
+				timeName = im.Name.Name
+			}
+		}
+	}
 	syncName := ""
 	for _, im := range af.Imports {
 		if im.Path.Value == `"sync"` {
@@ -310,6 +321,15 @@ func instrumentFile(fset *token.FileSet, af *ast.File, src []byte, pkgVars map[s
 			continue
 		}
 		body(fd.Body)
+		ast.Inspect(fd.Type, func(x ast.Node) bool {
+			if v, ok := x.(*ast.SelectorExpr); ok {
+				if id, ok := v.X.(*ast.Ident); ok && timeName != "" && id.Name == timeName && v.Sel.Name == "Timer" {
+					ins = append(ins, insertion{off(id.Pos()), "zztime", len(timeName)})
+					usesZZTime = true
+				}
+			}
+			return true
+		})
 		ast.Inspect(fd.Body, func(x ast.Node) bool {
 			switch v := x.(type) {
 			case *ast.FuncLit:
@@ -340,8 +360,13 @@ func instrumentFile(fset *token.FileSet, af *ast.File, src []byte, pkgVars map[s
 				ins = append(ins, insertion{off(v.Call.Lparen), sep, 1})
 				points++
 			case *ast.SelectStmt:
-				// a select with a default clause never blocks; anything else
-				// would park the client while it holds the baton
+				// a select with a default clause never blocks. A blocking one
+				// would park the client while it holds the baton, so it is
+				// turned into a polling loop:
+				//   for { select { <cases>; default: zzsimrt.Blocked(); continue; }; break }
+				// (an unlabelled break inside a case still leaves the select, and
+				// then the loop; an unlabelled continue would change its target,
+				// so that is refused)
 				hasDefault := false
 				for _, cl := range v.Body.List {
 					if cc, ok := cl.(*ast.CommClause); ok && cc.Comm == nil {
@@ -349,9 +374,92 @@ func instrumentFile(fset *token.FileSet, af *ast.File, src []byte, pkgVars map[s
 					}
 				}
 				if !hasDefault {
-					note(v.Pos(), "a blocking select")
+					bad := false
+					var walk func(n ast.Node, inLoop bool)
+					walk = func(n ast.Node, inLoop bool) {
+						ast.Inspect(n, func(x ast.Node) bool {
+							switch b := x.(type) {
+							case *ast.FuncLit:
+								return false
+							case *ast.ForStmt:
+								if x != n {
+									walk(b.Body, true)
+									return false
+								}
+							case *ast.RangeStmt:
+								if x != n {
+									walk(b.Body, true)
+									return false
+								}
+							case *ast.BranchStmt:
+								if b.Tok == token.CONTINUE && b.Label == nil && !inLoop {
+									bad = true
+								}
+							}
+							return true
+						})
+					}
+					walk(v.Body, false)
+					if bad {
+						note(v.Pos(), "a blocking select containing an unlabelled continue")
+						break
+					}
+					// If every case ends by leaving the function, the select is a
+					// terminating statement and so must its replacement be (else
+					// "missing return"): then the loop needs no break at all.
+					allLeave := len(v.Body.List) > 0
+					for _, cl := range v.Body.List {
+						cc := cl.(*ast.CommClause)
+						if len(cc.Body) == 0 {
+							allLeave = false
+							break
+						}
+						switch last := cc.Body[len(cc.Body)-1].(type) {
+						case *ast.ReturnStmt:
+						case *ast.ExprStmt:
+							call, ok := last.X.(*ast.CallExpr)
+							id, ok2 := (ast.Expr)(nil).(*ast.Ident)
+							if ok {
+								id, ok2 = call.Fun.(*ast.Ident)
+							}
+							if !ok || !ok2 || id.Name != "panic" {
+								allLeave = false
+							}
+						default:
+							allLeave = false
+						}
+						ast.Inspect(cc, func(x ast.Node) bool {
+							switch b := x.(type) {
+							case *ast.FuncLit, *ast.ForStmt, *ast.RangeStmt, *ast.SwitchStmt, *ast.TypeSwitchStmt, *ast.SelectStmt:
+								return false
+							case *ast.BranchStmt:
+								if b.Tok == token.BREAK && b.Label == nil {
+									allLeave = false
+								}
+							}
+							return true
+						})
+					}
+					ins = append(ins, insertion{off(v.Pos()), "for { ", 0})
+					if allLeave {
+						ins = append(ins, insertion{off(v.Body.Rbrace), "default: zzsimrt.Blocked(); ", 0})
+						ins = append(ins, insertion{off(v.Body.Rbrace) + 1, " }", 0})
+					} else {
+						ins = append(ins, insertion{off(v.Body.Rbrace), "default: zzsimrt.Blocked(); continue; ", 0})
+						ins = append(ins, insertion{off(v.Body.Rbrace) + 1, "; break }", 0})
+					}
+					points++
 				}
 			case *ast.SelectorExpr:
+				if id, ok := v.X.(*ast.Ident); ok && timeName != "" && id.Name == timeName && id.Obj == nil {
+					switch v.Sel.Name {
+					case "Now", "Since", "Until", "Sleep", "After", "AfterFunc", "NewTimer", "Timer":
+						ins = append(ins, insertion{off(id.Pos()), "zztime", len(timeName)})
+						usesZZTime = true
+					case "Tick", "NewTicker", "Ticker":
+						note(v.Pos(), "time."+v.Sel.Name)
+					}
+				}
 				if id, ok := v.X.(*ast.Ident); ok && syncName != "" && id.Name == syncName && id.Obj == nil {
 					switch v.Sel.Name {
 					case "OnceValue", "OnceValues":
@@ -373,6 +481,15 @@ func instrumentFile(fset *token.FileSet, af *ast.File, src []byte, pkgVars map[s
 			case *ast.FuncLit:
 				return false
 			case *ast.SelectorExpr:
+				if id, ok := v.X.(*ast.Ident); ok && timeName != "" && id.Name == timeName {
+					switch v.Sel.Name {
+					case "Now", "Since", "Until", "Sleep", "After", "AfterFunc", "NewTimer", "Timer":
+						ins = append(ins, insertion{off(id.Pos()), "zztime", len(timeName)})
+						usesZZTime = true
+					case "Tick", "NewTicker", "Ticker":
+						note(v.Pos(), "time."+v.Sel.Name)
+					}
+				}
 				if id, ok := v.X.(*ast.Ident); ok && syncName != "" && id.Name == syncName {
 					switch v.Sel.Name {
 					case "OnceValues":
@@ -388,6 +505,11 @@ func instrumentFile(fset *token.FileSet, af *ast.File, src []byte, pkgVars map[s
 	}
 	if len(ins) == 0 {
 		return 0, nil, nil
+	}
+	if usesZZTime {
+		ins = append(ins, insertion{off(af.Name.End()), "; import zztime \"" + timeImport + "\"", 0})
+		// whatever is left of the real package's use may be nothing at all
+		ins = append(ins, insertion{len(src), "\nvar _ " + timeName + ".Duration\n", 0})
 	}
 	if points > 0 {
 		// import on the same line as the package clause: line numbers of the
